@@ -100,6 +100,8 @@ def blank(v):
 
 
 def conv(kind, v):
+    if kind == 'dashstr':       # the converter subclass with its own none-values
+        return None if v in (None, 'x', '') else str(v).strip()
     if kind == 'str':
         return None if v is None else str(v).strip()
     if kind == 'int':
@@ -125,6 +127,7 @@ def gen_sheet(rng):
     spec['range_kind'] = rng.choice(['set', 'set', 'dict', 'none'])
     spec['have_opt'] = rng.random() < 0.5
     spec['rule_objects'] = rng.choice([None, None, None, 'some', 'all'])
+    spec['own_converter'] = rng.random() < 0.25
     spec['ladder'] = rng.random() < 0.4
     spec['stop_on'] = rng.choice(["blank all", "blank all", "blank first"])
     lead = rng.randint(0, 1) if spec['stop_on'] == "blank all" else 0
@@ -203,17 +206,32 @@ def gen_sheet(rng):
             trailing[0] = [" "] + [None] * (ncol - 1)   # blank, but not None
     elif r < 0.6:
         trailing = [[None] + ["tail"] * (ncol - 1), ["k98"] * ncol]
+    # titles wrapped inside the cell (Alt+Enter): the rules name the columns exactly as the cells do
+    tmap = {}
+    if rng.random() < 0.2:
+        tmap = {t: t[:2] + "\n" + t[2:] for t in ('Num', 'Name', 'Flag')}
+        if not numeric_titles:
+            tmap.update({m: m[:1] + "\n" + m[1:] for m in rcols})
+    spec['title_map'] = tmap
     title_cells = [int(t) if (numeric_titles and t in rcols) else
-                   (" %s " % t if t and rng.random() < 0.1 else t) for t in titles]
+                   (" %s " % tmap.get(t, t) if t and rng.random() < 0.1 else tmap.get(t, t)) for t in titles]
     spec.update(titles=titles, nblank=nblank, trailing=bool(trailing), extras=extras, rcols=rcols,
                 grid=[[None] * ncol for _ in range(nblank)] + [title_cells] + data + trailing)
     return spec
 
 
+class DashStr(X.CellStr):
+    """a converter configured the way the package configures CellBool: by its class-level set of none-values"""
+    _NONE_VALUES = {None, 'x', ''}
+
+
 def make_rules(spec):
+    tm = spec.get('title_map') or {}
     rules = {
-        'key': ('Key', X.cell_str), 'name': ('Name', X.cell_str), 'num': ('Num', X.cell_int),
-        'flag': ('Flag', X.cell_bool),
+        'key': ('Key', X.cell_str),
+        'name': (tm.get('Name', 'Name'), DashStr() if spec.get('own_converter') else X.cell_str),
+        'num': (tm.get('Num', 'Num'), X.cell_int),
+        'flag': (tm.get('Flag', 'Flag'), X.cell_bool),
         'tags': ('Tags', X.cell_list if spec['tags_kind'] == 'list' else X.cell_set),
         'ext': None, 'opt': ('Opt', X.cell_str, {'default_val': 'DFLT'}),
     }
@@ -280,19 +298,24 @@ def expected_objects(spec):
         nv, _ = eff[tcol['Name']]
         n_id = spec.get('n_id', 1)
         # no object when all the cells of the logical id are empty
-        if (n_id == 1 and kv is None) or (n_id == 2 and kv is None and nv is None):
+        name_kind = 'dashstr' if spec.get('own_converter') else 'str'
+        # (... or convert to nothing)
+        if (n_id == 1 and kv is None) or (n_id == 2 and kv is None and conv(name_kind, nv) is None):
             out.append(None)
             continue
         o = {}
         for attr, title, kind in KNOWN:
             if attr == 'tags':
                 kind = spec['tags_kind']
+            if attr == 'name':
+                kind = name_kind
             v, rc = eff[tcol[title]]
             o[attr] = (conv(kind, v), rc)
         if spec['range_kind'] == 'none':
             o['marks'] = (None, "<n/a>")
         else:
-            per_key = {m: eff[tcol[m]] for m in spec['rcols']}
+            tm = spec.get('title_map') or {}
+            per_key = {tm.get(m, m): eff[tcol[m]] for m in spec['rcols']}
             if spec['range_kind'] == 'set':
                 val = {m for m, (v, _) in per_key.items() if conv('bool', v)}
             else:
@@ -389,6 +412,8 @@ def judge(ctx, spec, case):
                 continue
             kind = spec['tags_kind'] if attr == 'tags' else next(k for a, _, k in KNOWN + [('opt', 'Opt', 'str')]
                                                                 if a == attr)
+            if attr == 'name' and spec.get('own_converter'):
+                kind = 'dashstr'
             at_origin = conv(kind, grid[rc[0]][rc[1]])
             if got_val != at_origin or type(got_val) is not type(at_origin):
                 problems.append(("attribute-differs-from-cell-at-reported-origin",
